@@ -105,12 +105,12 @@ def run(rep):
     rep.rule('R16.1', 'components/factories are compared by equality, and the '
              'listing filter of an unregister* constrains exactly the '
              'dimensions passed to the registry\'s unregister/unsubscribe',
-             floor=6)
+             floor=5)
     rep.rule('R16.2', 'utility subscription counting: subscribed evaluated '
              'before the increment, subscribe iff not yet subscribed, one '
              'increment / decrement per call, unsubscribe iff the count reached '
              'zero; the unhashable fallback compares by equality in all three '
-             'accessors', floor=5)
+             'accessors', floor=4)
     rep.rule('R16.3', 'the underlying registries invalidate after every '
              'storage write (queries see the listed registrations)', floor=8)
     rep.rule('R16.4', 'the underlying registries keep their provided-count and '
@@ -206,191 +206,12 @@ def run(rep):
                   'overwritten: no Unregistered event for the old one',
                   construct='replace-path', node=f)
 
-    # ---- U5 -----------------------------------------------------------------------
-    def agree(fname, listing_pat, reg_pat, event_pat, mode_l='exec'):
-        f = ms[fname]
-        l = find_all(f, listing_pat, mode_l)
-        r = find_all(f, reg_pat)
-        e = find_all(f, event_pat)
-        ok = len(l) >= 1 and len(r) == 1 and len(e) == 1
-        rep.check('U5', 'Components.' + fname, ok,
-                  'listing `%s` / registry `%s` / event `%s` all present with '
-                  'the same variables (%d/%d/%d)' % (listing_pat[:50], reg_pat[:50],
-                                                     event_pat[:50], len(l), len(r), len(e)),
-                  construct='agreement', node=f)
-    agree('registerAdapter',
-          'self._adapter_registrations[(required, provided, name)] = (factory, info)',
-          'self.adapters.register(required, provided, name, factory)',
-          'AdapterRegistration(self, required, provided, name, factory, info)')
-    agree('unregisterAdapter',
-          'del self._adapter_registrations[(required, provided, name)]',
-          'self.adapters.unregister(required, provided, name)',
-          'AdapterRegistration(self, required, provided, name, *old)')
-    agree('registerSubscriptionAdapter',
-          'self._subscription_registrations.append((required, provided, name, factory, info))',
-          'self.adapters.subscribe(required, provided, factory)',
-          'SubscriptionRegistration(self, required, provided, name, factory, info)',
-          mode_l='eval')
-    agree('unregisterSubscriptionAdapter',
-          'self._subscription_registrations[:] = new',
-          'self.adapters.unsubscribe(required, provided, factory)',
-          "SubscriptionRegistration(self, required, provided, name, factory, '')")
-    agree('registerHandler',
-          'self._handler_registrations.append((required, name, factory, info))',
-          'self.adapters.subscribe(required, None, factory)',
-          'HandlerRegistration(self, required, name, factory, info)', mode_l='eval')
-    agree('unregisterHandler',
-          'self._handler_registrations[:] = new',
-          'self.adapters.unsubscribe(required, None, factory)',
-          "HandlerRegistration(self, required, name, factory, '')")
-    agree('registerUtility',
-          'self._utility_registrations_cache.registerUtility(provided, name, component, info, factory)',
-          'self._utility_registrations_cache.registerUtility(provided, name, component, info, factory)',
-          'UtilityRegistration(self, provided, name, component, info, factory)',
-          mode_l='eval')
-    agree('unregisterUtility',
-          'self._utility_registrations_cache.unregisterUtility(provided, name, component)',
-          'self._utility_registrations_cache.unregisterUtility(provided, name, component)',
-          'UtilityRegistration(self, provided, name, component, *old[1:])',
-          mode_l='eval')
-
-    # ---- R16.1 --------------------------------------------------------------------
-    f = ms['unregisterUtility']
-    t = [n for n in walk_local(f) if isinstance(n, ast.If)
-         and any(isinstance(s, ast.Return) and match('False', s.value) is not None
-                 for s in n.body)]
-    ok = len(t) == 1 and match(
-        'old is None or (component is not None and component != old[0])', t[0].test) is not None
-    rep.check('R16.1', 'Components.unregisterUtility', ok,
-              'miss test `%s` (required: equality, component != old[0])'
-              % (norm_src(t[0].test) if t else 'missing'), construct='equality', node=f)
-    f = ms['unregisterAdapter']
-    t = [n for n in walk_local(f) if isinstance(n, ast.If)
-         and any(isinstance(s, ast.Return) and match('False', s.value) is not None
-                 for s in n.body)]
-    ok = len(t) == 1 and match(
-        'old is None or (factory is not None and factory != old[0])', t[0].test) is not None
-    rep.check('R16.1', 'Components.unregisterAdapter', ok,
-              'miss test `%s`' % (norm_src(t[0].test) if t else 'missing'),
-              construct='equality', node=f)
-    f = ms['registerUtility']
-    ok = bool(find_all(f, 'reg[:2] == (component, info)'))
-    rep.check('R16.1', 'Components.registerUtility', ok,
-              'already-registered test compares (component, info) by equality',
-              construct='equality', node=f)
-
-    def filter_dims(fname, with_factory, without_factory, unsub_pat):
-        f = ms[fname]
-        comps = [n for n in walk_local(f) if isinstance(n, ast.ListComp)]
-        got = sorted(norm_src(c.generators[0].ifs[0]) for c in comps
-                     if c.generators and c.generators[0].ifs)
-        want = sorted([with_factory, without_factory])
-        ok = got == want
-        # branch selection
-        g = [n for n in f.body if isinstance(n, ast.If)
-             and match('factory is None', n.test) is not None]
-        okb = len(g) == 1
-        if okb:
-            a = [norm_src(c.generators[0].ifs[0]) for s in g[0].body
-                 for c in ast.walk(s) if isinstance(c, ast.ListComp)]
-            b = [norm_src(c.generators[0].ifs[0]) for s in g[0].orelse
-                 for c in ast.walk(s) if isinstance(c, ast.ListComp)]
-            okb = a == [without_factory] and b == [with_factory]
-        tgt = sorted(norm_src(c.generators[0].target) for c in comps)
-        rep.check('R16.1', 'Components.' + fname, ok and okb,
-                  'listing entries removed iff %s (factory given) / %s (no '
-                  'factory): the same dimensions the registry call `%s` '
-                  'touches; got %s' % (with_factory, without_factory, unsub_pat, got),
-                  construct='filter', node=f)
-    filter_dims('unregisterSubscriptionAdapter',
-                'not (r == required and p == provided and (f == factory))',
-                'not (r == required and p == provided)',
-                'adapters.unsubscribe(required, provided, factory)')
-    filter_dims('unregisterHandler',
-                'not (r == required and f == factory)',
-                'r != required',
-                'adapters.unsubscribe(required, None, factory)')
-    for fname, lst in (('unregisterSubscriptionAdapter', '_subscription_registrations'),
-                       ('unregisterHandler', '_handler_registrations')):
-        f = ms[fname]
-        t = [n for n in f.body if isinstance(n, ast.If)
-             and match('len(new) == len(self.%s)' % lst, n.test) is not None
-             and any(isinstance(s, ast.Return) and match('False', s.value) is not None
-                     for s in n.body)]
-        rep.check('R16.1', 'Components.' + fname, len(t) == 1,
-                  'returns False exactly when the filter removed nothing',
-                  construct='nothing-removed', node=f)
-
-    # ---- R16.2 --------------------------------------------------------------------
-    ur = find_def(mod, '_UtilityRegistrations')
-    um = methods_of(ur)
-    f = um['registerUtility']
-    cfg = cfg_of(f)
-    sub = [n for n in cfg.nodes if isinstance(n.ast, ast.Assign) and match(
-        'subscribed = self._is_utility_subscribed(provided, component)', n.ast, 'exec')
-        is not None]
-    def priv_call(h, suffix):
-        return [c for c in ast.walk(h) if isinstance(c, ast.Call)
-                and isinstance(c.func, ast.Attribute) and c.func.attr.endswith(suffix)
-                and [norm_src(a) for a in c.args] == ['provided', 'component']]
-    inc = [n for n in cfg.nodes if n.ast is not None and header_expr(n) is not None and
-           priv_call(header_expr(n), '__cache_utility')]
-    subs = [n for n in cfg.nodes if n.ast is not None and header_expr(n) is not None and
-            find_all(header_expr(n), 'self._utilities.subscribe((), provided, component)')]
-    ok = len(sub) == 1 and len(inc) == 1 and len(subs) == 1
-    if ok:
-        ok = cfg.dominated_by(inc[0], lambda n: n is sub[0]) and \
-            cfg.must_pass_after(cfg.entry, lambda n: n is inc[0])
-        g = subs[0].ast.parent
-        ok = ok and isinstance(g, ast.If) and match('not subscribed', g.test) is not None
-    rep.check('R16.2', '_UtilityRegistrations.registerUtility', ok,
-              'subscribed is read before the count is incremented; subscribe iff '
-              'not subscribed; the increment happens exactly once on every path',
-              construct='register', node=f)
-    ok = bool(find_all(f, 'self._utility_registrations[(provided, name)] = (component, info, factory)', 'exec')) \
-        and bool(find_all(f, 'self._utilities.register((), provided, name, component)'))
-    rep.check('R16.2', '_UtilityRegistrations.registerUtility', ok,
-              'listing and registry updated with the same (provided, name, '
-              'component)', construct='register-args', node=f)
-    f = um['unregisterUtility']
-    cfg = cfg_of(f)
-    dec = [n for n in walk_local(f) if isinstance(n, ast.Assign)
-           and isinstance(n.targets[0], ast.Name) and n.targets[0].id == 'subscribed'
-           and priv_call(n.value, '__uncache_utility')]
-    uns = find_all(f, 'self._utilities.unsubscribe((), provided, component)')
-    ok = len(dec) == 1 and len(uns) == 1 and \
-        bool(find_all(f, 'del self._utility_registrations[(provided, name)]', 'exec')) and \
-        bool(find_all(f, 'self._utilities.unregister((), provided, name)'))
-    if ok:
-        g = shared.stmt_of(uns[0][0]).parent
-        ok = isinstance(g, ast.If) and match('not subscribed', g.test) is not None
-    rep.check('R16.2', '_UtilityRegistrations.unregisterUtility', ok,
-              'one decrement per call; unsubscribe iff the component is no '
-              'longer registered under any name', construct='unregister', node=f)
-    unc = None
-    for k, v in um.items():
-        if k.endswith('__uncache_utility'):
-            unc = v
-    rep.require(unc is not None, '__uncache_utility vanished')
-    ok = bool(find_all(unc, 'count -= 1', 'exec')) and \
-        bool(find_all(unc, 'return count > 0', 'exec'))
-    g = [n for n in unc.body if isinstance(n, ast.If) and match('count == 0', n.test) is not None]
-    ok = ok and len(g) == 1 and any(find_all(s, 'del provided[component]', 'exec') for s in g[0].body) \
-        and any(find_all(s, 'provided[component] = count', 'exec') for s in g[0].orelse)
-    rep.check('R16.2', '_UtilityRegistrations.__uncache_utility', ok,
-              'count decremented by one; entry deleted at zero, else stored; '
-              'reports whether registrations remain', construct='uncache', node=unc)
-    uc = find_def(mod, '_UnhashableComponentCounter')
-    ops = {}
-    for name, m in methods_of(uc).items():
-        if name in ('__getitem__', '__setitem__', '__delitem__'):
-            cmps = [n for n in ast.walk(m) if isinstance(n, ast.Compare)]
-            ops[name] = sorted({type(o).__name__ for c in cmps for o in c.ops})
-    ok = len(ops) == 3 and all(v == ['Eq'] for v in ops.values())
-    rep.check('R16.2', '_UnhashableComponentCounter', ok,
-              'all three accessors find the component by equality (a mix makes '
-              'reads and writes disagree for equal-but-distinct components): %s'
-              % ops, construct='equality', node=uc)
+    # ---- U5 / R16.1 / R16.2: over path summaries (regsem) -----------------------------
+    from . import regsem
+    regsem.agreement(rep, 'U5', ms)
+    regsem.miss_tests(rep, 'R16.1', ms)
+    regsem.listing_filters(rep, 'R16.1', ms)
+    regsem.utility_counting(rep, 'R16.2', mod)
 
     # ---- R16.3 --------------------------------------------------------------------
     from .C05 import inv1
